@@ -25,6 +25,7 @@ type RunSpec struct {
 	Mode    string   `json:"mode"` // "", "c01", "c03", "c18", "sweep"
 	Fuel    int64    `json:"fuel"`
 	Stop    bool     `json:"stop"`
+	Thorough bool    `json:"thorough"`
 }
 
 type mixEntry struct {
@@ -136,7 +137,7 @@ func knownPath() string {
 }
 
 func execSpec(sp RunSpec, known *KnownFindings) *RunResult {
-	opt := RunOpts{Props: map[string]bool{sp.Prop: true}, Known: known, Fuel: sp.Fuel, Mode: sp.Mode, Stop: sp.Stop}
+	opt := RunOpts{Props: map[string]bool{sp.Prop: true}, Known: known, Fuel: sp.Fuel, Mode: sp.Mode, Stop: sp.Stop, Thorough: sp.Thorough}
 	if sp.Prop == "ALL" {
 		opt.Props = nil
 	}
@@ -209,7 +210,7 @@ func cmdCheck(args []string) {
 		if tier == "thorough" && m.Profile == "long" && i%3 == 1 {
 			m.Profile = "longer"
 		}
-		return RunSpec{Index: i, Seed: runSeed(base, i), Profile: m.Profile, Prop: prop, Mode: m.Mode, Fuel: 5_000_000, Stop: true}
+		return RunSpec{Index: i, Seed: runSeed(base, i), Profile: m.Profile, Prop: prop, Mode: m.Mode, Fuel: 5_000_000, Stop: true, Thorough: tier == "thorough"}
 	}
 	stop := false
 	allLong := true
@@ -356,6 +357,7 @@ type ReplayFile struct {
 	Message   string    `json:"message"`
 	Mode      string    `json:"mode,omitempty"`
 	Fuel      int64     `json:"fuel"`
+	Thorough  bool      `json:"thorough,omitempty"`
 	Minimised bool      `json:"minimised"`
 	OrigSteps int       `json:"original_steps"`
 	OrigOps   int       `json:"original_ops"`
@@ -372,14 +374,19 @@ func countOps(t *Trace) int {
 
 func reportViolation(prop string, tr *Trace, v Violation, sp RunSpec) string {
 	os.MkdirAll(replayDir(), 0o755)
-	opt := RunOpts{Props: map[string]bool{prop: true}, Known: LoadKnown(knownPath()), Fuel: sp.Fuel, Mode: sp.Mode, Stop: true}
+	opt := RunOpts{Props: map[string]bool{prop: true}, Known: LoadKnown(knownPath()), Fuel: sp.Fuel, Mode: sp.Mode, Stop: true, Thorough: sp.Thorough}
+	if sp.Mode == "c01" || sp.Mode == "c03" {
+		if strings.HasPrefix(v.Sub, "C01") || strings.HasPrefix(v.Sub, "C03") {
+			opt.OnlyReplica = v.Step
+		}
+	}
 	// cut the trace after the violating step
 	cut := &Trace{Version: tr.Version, Cfg: tr.Cfg, Steps: append([]Step{}, tr.Steps...)}
 	if v.StepIx+1 < len(cut.Steps) {
 		cut.Steps = cut.Steps[:v.StepIx+1]
 	}
 	min := Shrink(cut, v.Sig(), opt, time.Duration(envInt("VERIF_SHRINK_S", 150))*time.Second, 1500)
-	rf := &ReplayFile{Engine: 1, Property: prop, Signature: v.Sig(), Message: v.Msg, Mode: sp.Mode, Fuel: sp.Fuel, Minimised: true, OrigSteps: len(tr.Steps), OrigOps: countOps(tr), Trace: min}
+	rf := &ReplayFile{Engine: 1, Property: prop, Signature: v.Sig(), Message: v.Msg, Mode: sp.Mode, Fuel: sp.Fuel, Thorough: sp.Thorough, Minimised: true, OrigSteps: len(tr.Steps), OrigOps: countOps(tr), Trace: min}
 	name := fmt.Sprintf("%s-%s-%d.json", prop, short(sha([]byte(v.Sig()))), tr.Cfg.Seed)
 	path := filepath.Join(replayDir(), name)
 	b, _ := json.MarshalIndent(rf, "", " ")
@@ -421,7 +428,7 @@ func cmdReplay(args []string) {
 		os.Exit(2)
 	}
 	verbose := len(args) > 1 && args[1] == "-v"
-	opt := RunOpts{Props: map[string]bool{rf.Property: true}, Fuel: rf.Fuel, Mode: rf.Mode, Verbose: verbose, Stop: true}
+	opt := RunOpts{Props: map[string]bool{rf.Property: true}, Fuel: rf.Fuel, Mode: rf.Mode, Verbose: verbose, Stop: true, Thorough: rf.Thorough}
 	if os.Getenv("VERIF_REPLAY_USE_KNOWN") == "1" {
 		opt.Known = LoadKnown(knownPath())
 	}
